@@ -135,6 +135,18 @@ def cases(tier, seed):
                             yield dict(out=dict(k=k, n_defaults=n_defaults, lead=lead, kwtail=kwtail, decoy=decoy), target=tpath, tkind=tkind, input=ev, wrap=None, eval=True)
 
 
+    # histories: earlier sync_properties calls in the same process that read the same, unmodified input file (into an output file of their own); the last call is judged
+    calls = [dict(input=i[0], wrap=w, eval=False) for i in INPUTS for w in WRAPS] + [dict(input=e, wrap=None, eval=True) for e in EVAL_INPUTS]
+    o = dict(k=2, n_defaults=1, lead="plain", kwtail=False, decoy=False)
+    for tpath, tkind in (("Out.x", "class_attr"), ("fout.a", "param")):
+        for depth in (1,) if tier == "quick" else (1, 2):
+            for hist in itertools.product(calls, repeat=depth):
+                if depth == 2 and not (hist[0]["wrap"] or hist[1]["wrap"]):
+                    continue  # depth two: at least one of the earlier calls uses a template
+                for last in calls:
+                    yield dict(out=o, target=tpath, tkind=tkind, input=last["input"], wrap=last["wrap"], eval=last["eval"], history=list(hist))
+
+
 SENT = "__MASKED__"
 
 
@@ -210,6 +222,10 @@ def run(case):
         defaults="none" if o["n_defaults"] == 0 else "all" if o["n_defaults"] == o["k"] else "some", kwtail=o["kwtail"], decoy=o.get("decoy", False),
         input_name_in_output=names_equal, same_name=bool(inp) and inp[2] == tname, shadowed_input=bool(case.get("shadow")),
     )
+    if case.get("history"):
+        ctx["history"] = len(case["history"])
+        ctx["history_same_input"] = any(h["input"] == case["input"] for h in case["history"])
+        ctx["history_wrapped"] = any(h["wrap"] for h in case["history"])
     viol = []
 
     def v(clause, expected, observed, **extra):
@@ -225,6 +241,14 @@ def run(case):
             f.write(input_src)
         with open(op, "wt") as f:
             f.write(src)
+        for hi, h in enumerate(case.get("history") or []):
+            hp = os.path.join(d, "outp_h%d.py" % hi)
+            with open(hp, "wt") as f:
+                f.write(src)
+            try:
+                cdd.compound.sync_properties.sync_properties(input_eval=h["eval"], input_filename=ip, input_params=[h["input"]], output_filename=hp, output_params=[case["target"]], output_param_wrap=h["wrap"])
+            except Exception:
+                pass  # judged when it is the last call of its own case
         try:
             cdd.compound.sync_properties.sync_properties(
                 input_eval=case["eval"], input_filename=ip, input_params=[case["input"]], output_filename=op, output_params=[case["target"]], output_param_wrap=case["wrap"]
@@ -280,7 +304,7 @@ def describe(tier):
         "with/without value, function parameters with/without default; names equal to or different from output names) x wrap template absent/present, "
         "plus --input-eval of a tuple constant for every location; plus a second input module in which every selected name is shadowed by an earlier node of "
         "another kind (module-level annotated variable named like the class attribute; class attribute named like a parameter of a method below it) with "
-        "method parameters as further inputs; decoy output modules also carry class attributes named like the method's parameters; a case = one sync_properties invocation".format(k=3 if tier == "quick" else 4),
+        "method parameters as further inputs; histories: every call preceded, in the same process and on the same unmodified input file, by every other call (thorough: by every pair of calls one of which uses a template); decoy output modules also carry class attributes named like the method's parameters; a case = one sync_properties invocation".format(k=3 if tier == "quick" else 4),
         bounds=dict(k=3 if tier == "quick" else 4, inputs=[i[0] for i in INPUTS], shadowed_inputs=[i[0] for i in INPUTS + INPUTS_SHADOW], wraps=WRAPS),
         exhaustive=True,
         assumptions=["reference transformer mc/checks/c13.py:apply_reference; the selected node's own default/value is not compared (the text is silent on it)",
